@@ -5,7 +5,10 @@
    [ucontains rs t] is the union of a list of ranges.  All statements hold for ALL cuts / ranges / keys. *)
 From Coq Require Import List ZArith Bool.
 Import ListNotations.
-From GMS Require Import Range.Cut Range.CutProofs Range.MRange Range.MRangeProofs.
+From Coq Require Import Sorted.
+From GMS Require Import Range.Cut Range.CutProofs Range.MRange Range.MRangeProofs Range.MRangeMore Range.RorNoError
+  Range.RorSorted Range.SimplifyProofs Range.C03IndexBuilderProofs.
+Open Scope nat_scope.
 
 (* the cut order of range_cut.go is a total order ... *)
 Theorem C46_cut_order_total : forall a b c,
@@ -82,17 +85,47 @@ Theorem C46_range_remove_overlap_terminates : forall a b, exists out ok, remove_
 Proof. exact remove_overlap_terminates. Qed.
 Print Assumptions C46_range_remove_overlap_terminates.
 
+(* the ranges RemoveOverlap returns are pairwise disjoint when no column of a or b is empty at the cut level
+   (without that guard Subtract's pieces can overlap, see C46_col_subtract_pieces_disjoint_unguarded_refuted) *)
+Theorem C46_range_remove_overlap_disjoint : forall fuel a b out ok, no_empty_col a = true -> no_empty_col b = true ->
+  remove_overlap fuel a b = Some (out, ok) -> pairwise_disjoint out.
+Proof. exact remove_overlap_disjoint. Qed.
+Print Assumptions C46_range_remove_overlap_disjoint.
+
+(* SimplifyRangeColumn: same union; the output ranges are non-empty, ascending, and each lies strictly above the
+   previous one with a gap (upper bound < next lower bound), hence pairwise disconnected and disjoint *)
+Theorem C46_simplify_range_column : forall l,
+  (forall v, existsb (fun r => contains r v) (simplify_range_column l) = existsb (fun r => contains r v) l) /\
+  StronglySorted gap (simplify_range_column l) /\ Forall (fun b => is_empty b = false) (simplify_range_column l).
+Proof. intros l. exact (conj (simplify_range_column_exact l) (simplify_range_column_sorted l)). Qed.
+Print Assumptions C46_simplify_range_column.
+Theorem C46_gap_means_disconnected_and_disjoint : forall x y, is_empty x = false -> is_empty y = false -> gap x y ->
+  is_connected x y = false /\ snd (overlaps x y) = false /\ forall v, contains x v && contains y v = false.
+Proof. exact gap_disconnected. Qed.
+Print Assumptions C46_gap_means_disconnected_and_disjoint.
+
 (* RemoveOverlappingRanges, for every input list, every step bound and every admissible sequence of
    FindConnections observations: a returned collection denotes exactly the union of the inputs and is pairwise
-   disjoint.  PARTIAL: not proved — that the output is sorted; that the loop terminates (it does not for
-   degenerate columns, see the finding); that the "overlapping ranges" error cannot occur when every
-   FindConnections observation is complete (see C46_remove_overlapping_error_reachable for what happens
-   when one is not). *)
+   disjoint.  PARTIAL only in that termination of the worklist loop is not proved (it does not terminate for
+   degenerate columns, see the finding); sortedness and absence of the error are the next two theorems. *)
 Theorem C46_remove_overlapping_ranges_exact_disjoint_partial : forall fuel finds rs out c t, t <> [] ->
   remove_overlapping_ranges fuel finds rs = (ROk out, c) ->
   ucontains out t = ucontains rs t /\ pairwise_disjoint out.
 Proof. exact remove_overlapping_ranges_exact. Qed.
 Print Assumptions C46_remove_overlapping_ranges_exact_disjoint_partial.
+
+(* ... and, when every input range has n columns none of which is empty at the cut level (lower < upper), it is strictly
+   sorted by MySQLRange.Compare ... *)
+Theorem C46_remove_overlapping_ranges_sorted : forall n fuel finds rs out c,
+  Forall (wf n) rs -> remove_overlapping_ranges fuel finds rs = (ROk out, c) -> StronglySorted rlt out.
+Proof. exact remove_overlapping_ranges_sorted. Qed.
+Print Assumptions C46_remove_overlapping_ranges_sorted.
+(* ... and the "overlapping ranges" error cannot occur when every FindConnections observation was complete
+   (the flag returned by the model is true); the finding below is exactly an incomplete observation of the real tree *)
+Theorem C46_remove_overlapping_ranges_no_error_when_finds_complete : forall n fuel finds rs res,
+  Forall (wf n) rs -> remove_overlapping_ranges fuel finds rs = (res, true) -> res <> RErrOverlap.
+Proof. exact remove_overlapping_ranges_no_error. Qed.
+Print Assumptions C46_remove_overlapping_ranges_no_error_when_finds_complete.
 
 (* IntersectRanges: when the arguments of non-zero length all have n columns and there is at least one, the
    result is a range of n columns denoting exactly the intersection of those arguments (an empty intersection is
